@@ -25,7 +25,11 @@ import (
 	"verif/sstruct"
 )
 
+// spellingSeed: the document is also unmarshaled from an equivalent spelling (escapes for
+// roughly every third character of strings and keys, extra whitespace); the two Schemas must
+// marshal identically.
 type c05Case struct {
+	SpellSeed int           `json:"spell_seed,omitempty"`
 	Family    string        `json:"family"` // struct | doc
 	Spec      *sstruct.Spec `json:"spec,omitempty"`
 	Doc       *jv.V         `json:"doc,omitempty"`
@@ -224,6 +228,26 @@ func checkC05Doc(c *c05Case, rec *ev.Recorder) *failure {
 		if err != nil {
 			return failf("Marshal output is not JSON: %v\n%s", err, b)
 		}
+		if c.SpellSeed > 0 {
+			// the same JSON document in another spelling must unmarshal to the same schema
+			n := c.SpellSeed
+			spelled := c.Doc.JSONSpelled(func(s string) string {
+				return jv.EscapeSpelling(s, func() bool { n = n*1103515245 + 12345; return (n>>16)%3 == 0 })
+			})
+			var sp jsonschema.Schema
+			if err := json.Unmarshal([]byte(spelled), &sp); err != nil {
+				return failf("Unmarshal rejects an equivalent spelling of an accepted document: %v\n%s", err, spelled)
+			}
+			bs, err := json.Marshal(&sp)
+			if err != nil {
+				return failf("Marshal fails after unmarshaling an equivalent spelling: %v\n%s", err, spelled)
+			}
+			v1, e1 := jv.Parse(string(b))
+			v2, e2 := jv.Parse(string(bs))
+			if e1 != nil || e2 != nil || !jv.Equal(v1, v2) {
+				return failf("two spellings of the same JSON document unmarshal to different schemas\n plain:   %s\n spelled: %s\n marshal(plain):   %s\n marshal(spelled): %s", doc, spelled, b, bs)
+			}
+		}
 		want := normaliseDoc(c.Doc)
 		// numbers are compared after rounding to float64: encoding/json re-spells every number it
 		// holds as a float64 in its shortest round-tripping form (-2^63 as -9223372036854776000)
@@ -335,6 +359,9 @@ func propC05(rec *ev.Recorder) func(t *rapid.T) {
 			stripUnsafeMultipleOf(c.Doc, c.Instances)
 			if rapid.Bool().Draw(t, "decorate") {
 				c.Doc, _ = decorate(t, c.Doc, c.Draft7)
+			}
+			if rapid.Bool().Draw(t, "respell") {
+				c.SpellSeed = rapid.IntRange(1, 1<<20).Draw(t, "spellseed")
 			}
 		}
 		rec.Class("family:" + c.Family)
